@@ -468,8 +468,16 @@ func c37AppMode(rt *rapid.T, s *c37State, pool []string) {
 				present[f] = true
 			}
 		}
+		pocketBefore := n.App.VerifPocketKeeper().GetParams(n.Ctx())
 		n.BeginBlock(chain.Block{DT: time.Second})
 		checkACL(fmt.Sprintf("inside block %d", h))
+		// a feature that activates in this block may add what it is documented to add (BLOCK: the block size parameter) -
+		// every other pocketcore parameter the chain was configured with stays what it was
+		pocketAfter := n.App.VerifPocketKeeper().GetParams(n.Ctx())
+		pocketBefore.BlockByteSize, pocketAfter.BlockByteSize = 0, 0
+		if fmt.Sprintf("%+v", pocketBefore) != fmt.Sprintf("%+v", pocketAfter) {
+			c.Violation("C37/activation/parameters-changed-by-activation", "BeginBlock of block %d (features scheduled for it: %v) changed pocketcore parameters: %+v -> %+v", h, activatingAt(s.model, h), pocketBefore, pocketAfter)
+		}
 		ntx := rapid.IntRange(0, 2).Draw(rt, "nTxs")
 		for i := 0; i < ntx; i++ {
 			var soon []string
@@ -577,4 +585,14 @@ func c37KeeperMode(rt *rapid.T, s *c37State, pool []string) {
 		}
 		c.AddExtra("keeper_msgs", 1)
 	}
+}
+
+func activatingAt(model map[string]int64, h int64) []string {
+	var out []string
+	for _, k := range sortedKeys(model) {
+		if model[k] == h {
+			out = append(out, k)
+		}
+	}
+	return out
 }
